@@ -198,6 +198,11 @@ func RunDef(tl Tools, d Def, pkg string, runs int, timeout time.Duration) Outcom
 	var first map[string]string
 	for i := 0; i < runs; i++ {
 		r, err := RunPlugin(tl.Gorums, Request(d.Param, files, d.File.Name), timeout, "")
+		if err == nil && r.TimedOut {
+			// a run that normally takes 50 ms hit its time limit: on a busy machine that is no
+			// evidence; it only counts if a second run with four times the limit does not end either
+			r, err = RunPlugin(tl.Gorums, Request(d.Param, files, d.File.Name), 4*timeout, "")
+		}
 		if err != nil {
 			o.Invalid = "cannot run the plugin: " + err.Error()
 			return o
@@ -835,7 +840,7 @@ func Judge(o Outcome) Problem {
 	a := o.Analysis
 	switch {
 	case o.TimedOut:
-		return Problem{Kind: "timeout", Msg: "the plugin did not terminate within 60 s"}
+		return Problem{Kind: "timeout", Msg: "the plugin did not terminate within 60 s, nor within 240 s when run again"}
 	case o.Crashed:
 		line := ""
 		for _, l := range strings.Split(o.Diag, "\n") {
